@@ -401,7 +401,7 @@ def drive(sc):
                 xi = len(reads) + 1
                 flag = 16 if r["rev"] else 0
                 name = f"r{xi}"
-                rd = {"name": name, "flag": flag, "ref": ci, "pos": rec["pos"], "mapq": 60, "cigar": rec["cigar"], "seq": rec["seq"],
+                rd = {"name": name, "flag": flag, "ref": ci, "pos": rec["pos"], "mapq": rng.choice([60, 60, 20, 20]), "cigar": rec["cigar"], "seq": rec["seq"],
                       "qual": rec["qual"], "tags": [("XI", xi)] + ([("BX", f"BC{r['smp']}-{r['bx']}")] if r.get("bx") else []),
                       "rg": f"g{r['smp']}", "_pair": (ci, r["pair"]) if r["pair"] else None}
                 reads.append(rd)
